@@ -7,6 +7,7 @@ using randomx_verif::Access;
 namespace { struct BranchCtx { uint64_t taken, cfround, executed; }; }
 
 RXV_SUBCOMMAND(c04) {
+	runWatchdogKey() = "C04:watchdog:program-execution-did-not-return";
 	Rng rng(args.seed, 0xc04, args.shard);
 	const uint64_t nCases = args.cases ? args.cases : 250;
 	const bool useAsanSubset = args.num("directed_only", 0) != 0;
